@@ -178,3 +178,29 @@ fn cond_write_chain(spec: SpecId, write_when_zero: bool) -> Case {
         .collect();
     Case::new(if write_when_zero { "early-write-chain" } else { "late-write-chain" }, spec, db, txs)
 }
+
+/// A block of `n` transactions, larger than a machine word of per-transaction flags: every
+/// transaction has its own sender; transaction i pays transaction i+1's sender (a chain of balance
+/// dependencies at distance 1), every third one increments a shared counter instead (dependencies
+/// at distance 3), every seventh one probes the counter contract's balance/code.
+pub fn large(spec: SpecId, n: usize) -> Case {
+    let mut db = MemDb::default();
+    for i in 0..n as u64 + 1 {
+        db.fund(eoa(100 + i), U256::from(10 * ETHER), 0);
+    }
+    db.deploy(contract(0), kit::incr());
+    db.deploy(contract(3), kit::probe());
+    let mut txs = Vec::new();
+    for i in 0..n as u64 {
+        let from = eoa(100 + i);
+        let t = if i % 7 == 6 {
+            (format!("probe(c0)(u{i})"), call(from, 0, contract(3), &[word_addr(contract(0))]))
+        } else if i % 3 == 2 {
+            (format!("incr(u{i})"), call(from, 0, contract(0), &[word(1)]))
+        } else {
+            (format!("pay(u{i}>u{})", i + 1), transfer(from, 0, eoa(100 + i + 1), 1000 + i as u128))
+        };
+        txs.push(t);
+    }
+    Case::new(format!("large{n}"), spec, db, txs)
+}
